@@ -695,6 +695,10 @@ XProg(v) ==
          mk(<<FuncIn("PU1", "b", <<>>, "U1", FALSE, FALSE), XF("P1", <<"U1">>, "T1")>>,
             <<SetD("SetB", "b", <<ItL(1)>>), [SetD("Default", "c", <<ItS(1)>>) EXCEPT !.grp = "=alias"]>>,
             <<XInj("Inject", <<>>, "T1", <<ItS(2), ItL(2)>>, 1)>>)
+    [] v \in {"generic-injector", "method-injector"} ->   \* the injector template has a type parameter / is a method
+         mk(<<XF("P1", <<"T2">>, "T1"), XF("P3", <<>>, "T3")>>, <<>>,
+            <<[XInj("Inject", <<Par("p1", "T2")>>, "T1", <<ItL(1)>>, 1) EXCEPT !.form = IF v = "generic-injector" THEN "generic" ELSE "method"],
+              XInj("InjectB", <<>>, "T3", <<ItL(2)>>, 1)>>)
     [] v = "same-set-twice-direct" ->          \* one set listed twice in the same call
          mk(<<XF("P2", <<>>, "T2"), XF("P1", <<"T2">>, "T1")>>, <<SetD("SetA", "a", <<ItL(1)>>)>>,
             <<XInj("Inject", <<>>, "T1", <<ItS(1), ItL(2), ItS(1)>>, 1)>>)
@@ -709,7 +713,8 @@ XVariants == {"star-foreign-tag-missing", "star-foreign-tag-ok", "two-files-firs
               "iface-result-bound-to-value-struct", "alias-satisfies", "defined-type-does-not-satisfy", "pointer-does-not-satisfy-value",
               "value-does-not-satisfy-pointer", "multi-name-var-sets-missing", "two-fieldsof-second-unused", "missing-under-fieldsof-parent",
               "set-used-by-first-injector-only", "struct-fields-from-params-crossed", "inaccessible-value", "inaccessible-value-full-sig",
-              "foreign-struct-star-full-sig", "unnamed-params-same-type-name", "set-through-plain-alias-package"}
+              "foreign-struct-star-full-sig", "unnamed-params-same-type-name", "set-through-plain-alias-package",
+              "generic-injector", "method-injector"}
 FamilyX(p, vs) == \E v \in vs : p = XProg(v)
 
 (* ======================================================================== *)
